@@ -32,6 +32,7 @@ ASSUMPTIONS = [
 ]
 
 SB = "@SB@"  # placeholder for the sandbox directory inside cases
+DIST = "@DIST@"  # placeholder for the name of the elasticsearch* directory of the archive
 
 INTERNAL = [
     "cluster_name", "node_name", "data_paths", "log_path", "heap_dump_path", "node_ip", "network_host", "http_port", "transport_port",
@@ -62,9 +63,27 @@ def gen_key(rng):
     return rng.choice(GENERIC)
 
 
+INSTALL = f"{SB}/node/install/{DIST}"
+# spellings of data paths: elsewhere, below / beside / above the installation, names that extend each other as
+# strings without being ancestors (x, x-data, x_data, x1, x/sub), trailing slash
+DATA_PATH_STRINGS = [
+    f"{SB}/ext/d1", f"{SB}/ext/d2", f"{SB}/ext/d3", f"{SB}/node/install/es-data", f"{SB}/ext/d1/", f"{SB}/ext/d1/nodes", f"{SB}/ext/d10", f"{SB}/ext/d1-x",
+    f"{SB}/ext/d1_x/sub", INSTALL + "-data", INSTALL + "_data", INSTALL + "1/data", INSTALL + "0", INSTALL + "/data", INSTALL + "/data/", INSTALL + "/custom/sub",
+    INSTALL + ".bak", INSTALL, f"{SB}/node/install", f"{SB}/node/install/", f"{SB}/node/installation/data", f"{SB}/node/install-2/{DIST}/data",
+]
+
+
+def gen_data_path_list(rng):
+    r = rng.random()
+    if r < 0.5:
+        return [rng.choice(DATA_PATH_STRINGS) for _ in range(rng.randrange(0, 4))]
+    first = rng.choice(DATA_PATH_STRINGS).rstrip("/")
+    return rng.choice([[first, first], [first, first + "/nodes"], [first + "/nodes", first], [first, first + "-2"], [first + "/", first + "1"]])
+
+
 def gen_ini_value(rng, key):
     if key == "data_paths":
-        return rng.choice([f"{SB}/ext/d1", f"{SB}/ext/d2", f"{SB}/node/install/es-data"])
+        return rng.choice(DATA_PATH_STRINGS)
     if key == "runtime.jdk.bundled":
         return rng.choice(["true", "true", "false", "yes", "0", "t", "n", "False"]) if rng.random() < 0.9 else rng.choice(["maybe", "", "TRUE"])
     if key == "runtime.jdk":
@@ -84,7 +103,12 @@ def gen_ini_vars(rng, n, force=()):
 
 def gen_param_value(rng, key):
     if key == "data_paths":
-        return rng.choice([f"{SB}/ext/d1", [f"{SB}/ext/d1", f"{SB}/ext/d2"], [f"{SB}/ext/d3"], [], 7, None, f"{SB}/node/install/es-data"])
+        r = rng.random()
+        if r < 0.45:
+            return rng.choice(DATA_PATH_STRINGS)
+        if r < 0.92:
+            return gen_data_path_list(rng)
+        return rng.choice([7, None, True])
     if key == "runtime.jdk.bundled":
         return rng.choice([True, False, 1, 0, "true", "no"]) if rng.random() < 0.8 else rng.choice([2, None, ["true"], -1])
     r = rng.random()
@@ -247,7 +271,9 @@ def gen_extras(rng):
     shape = {}
     for d in ["d1", "d2", "d3", "es-data", "default"]:
         shape[d] = rng.choice(["dir", "dir", "dir", "absent", "link", "file"]) if rng.random() < 0.25 else rng.choice(["dir", "dir", "absent"])
-    return {"entries": out, "shape": shape}
+    # shapes of the other data paths, by position in the data path list
+    others = [rng.choice(["dir", "dir", "dir", "dir", "absent", "link", "file"]) for _ in range(4)]
+    return {"entries": out, "shape": shape, "others": others}
 
 
 def gen_main(ctx):
@@ -267,7 +293,7 @@ def gen_main(ctx):
         if rng.random() < 0.55:
             seen = set()
             for _ in range(rng.randrange(1, 4)):
-                k = gen_key(rng)
+                k = "data_paths" if rng.random() < 0.25 else gen_key(rng)
                 if k not in seen:
                     seen.add(k)
                     params.append([k, gen_param_value(rng, k)])
@@ -282,7 +308,10 @@ def gen_main(ctx):
 # materialisation
 # ------------------------------------------------------------------------------------------------
 def subst(x, sb):
+    """sb = sandbox directory, or (sandbox directory, distribution directory name)"""
     if isinstance(x, str):
+        if isinstance(sb, tuple):
+            return x.replace(SB, sb[0]).replace(DIST, sb[1])
         return x.replace(SB, sb)
     if isinstance(x, list):
         return [subst(y, sb) for y in x]
@@ -328,7 +357,8 @@ def write_ini(path, sections):
         f.write("\n".join(lines))
 
 
-def materialise_team(team, sb):
+def materialise_team(team, sb, dist_name=None):
+    key = (sb, dist_name) if dist_name else sb
     cars_dir = os.path.join(sb, "team", "cars", "v1")
     os.makedirs(cars_dir)
     os.makedirs(os.path.join(sb, "hookout"))
@@ -339,13 +369,13 @@ def materialise_team(team, sb):
         if c["base"] is not None:
             sections.append(("config", [("base", c["base"])]))
         if c["vars"] or c.get("section"):
-            sections.append(("variables", [(k, subst(v, sb)) for k, v in c["vars"]]))
+            sections.append(("variables", [(k, subst(v, key)) for k, v in c["vars"]]))
         write_ini(os.path.join(cars_dir, name + ".ini"), sections)
     for name, b in team["bases"]:
         bd = os.path.join(cars_dir, name)
         os.makedirs(bd)
         if b["ini"]:
-            write_ini(os.path.join(bd, "config.ini"), [("variables", [(k, subst(v, sb)) for k, v in b["vars"]])] if b["section"] else [("meta", [("x", "y")])])
+            write_ini(os.path.join(bd, "config.ini"), [("variables", [(k, subst(v, key)) for k, v in b["vars"]])] if b["section"] else [("meta", [("x", "y")])])
         if b["hook"]:
             with open(os.path.join(bd, "config.py"), "w") as f:
                 f.write(HOOK_SRC % os.path.join(sb, "hookout", name + ".json"))
@@ -503,13 +533,14 @@ def run_main(ctx, case):
     sb = tempfile.mkdtemp(prefix="c13-")
     saved_path = list(sys.path)
     try:
-        team_root, cars_dir = materialise_team(case["team"], sb)
+        sbx = (sb, case["node"]["dist_name"])
+        team_root, cars_dir = materialise_team(case["team"], sb, case["node"]["dist_name"])
         node = dict(case["node"])
         node_root = os.path.join(sb, "node")
         node["node_root"] = node_root
         dist_path = materialise_dist(node["dist_name"], case["dist"], sb)
-        params = subst(case["params"], sb)
-        m = ctx.model("team", "prepare", {"team": model_team(case["team"], sb), "names": case["names"], "params": params, "node": node, "dist": case["dist"]})
+        params = subst(case["params"], sbx)
+        m = ctx.model("team", "prepare", {"team": model_team(case["team"], sbx), "names": case["names"], "params": params, "node": node, "dist": case["dist"]})
         tags = m.get("tags", [])
 
         # ---- team.load_car ------------------------------------------------------------------
@@ -545,7 +576,7 @@ def run_main(ctx, case):
             ctx.diff("load_car result", mc, impl_car)
 
         # oracle: precedence of the car's variable map, config paths ordered and unique
-        layers, mentioned = oracle_layers(case["team"], case["names"], params, sb)
+        layers, mentioned = oracle_layers(case["team"], case["names"], params, sbx)
         all_keys = set(k for layer in layers for k in layer)
         for k in sorted(all_keys | set(car.variables)):
             ok, v = ranked(layers, k)
@@ -708,16 +739,33 @@ def run_cleanup_phase(ctx, case, sb, nc):
     os.makedirs(os.path.join(sb, "other", "keep"), exist_ok=True)
     os.makedirs(os.path.join(sb, "ext"), exist_ok=True)
     os.makedirs(os.path.join(sb, "linktarget", "nodes"), exist_ok=True)
+    named = {}
     for d, shape in case["extras"]["shape"].items():
         p = {"es-data": os.path.join(sb, "node", "install", "es-data"), "default": os.path.join(nc.binary_path, "data")}.get(d, os.path.join(sb, "ext", d))
-        if os.path.lexists(p):
-            continue
+        named[p] = shape
+    others = case["extras"].get("others", ["dir"])
+    canon = [os.path.normpath(dp) for dp in nc.data_paths]
+    # a trailing '/' makes the kernel resolve a symbolic link, and a data path below a link is a path through a link:
+    # both are outside the model's domain (paths are lstat'ed component lists), so such data paths are real directories
+    no_link = set(c for c, dp in zip(canon, nc.data_paths) if c != dp) | set(c for c in canon if any(o.startswith(c + os.sep) for o in canon))
+
+    def create(p, shape):
+        if os.path.lexists(p) or not make_real_dirs(sb, os.path.relpath(os.path.dirname(p), sb).split(os.sep)):
+            return
+        if shape in ("link", "file") and p in no_link:
+            shape = "dir"
         if shape == "dir":
             os.makedirs(os.path.join(p, "nodes", "0"))
+            open(os.path.join(p, "nodes", "0", "segments_1"), "w").write("data")
         elif shape == "file":
             open(p, "w").write("not a directory")
         elif shape == "link":
             os.symlink(os.path.join(sb, "linktarget"), p)
+
+    for i, c in enumerate(canon):
+        create(c, named.get(c) or others[i % len(others)])
+    for p, shape in named.items():
+        create(p, shape)
     for e in case["extras"]["entries"]:
         comps = [c.replace("@DIST@", case["node"]["dist_name"]) for c in e["path"]]
         make_entry(os.path.join(sb, *comps), e["kind"], sb)
@@ -734,6 +782,32 @@ def run_cleanup_phase(ctx, case, sb, nc):
     check_cleanup_oracle(ctx, case["preserve"], sb, before, after, roots)
     for t in m.get("tags", []):
         ctx.count("cleanup:" + t)
+    for r in root_relation([tuple(rel(p)) for p in roots]):
+        ctx.count("cleanup:roots:" + r)
+
+
+def root_relation(rroots):
+    """how the data paths relate to the installation directory (distribution histogram)"""
+    inst, out = rroots[0], set()
+    for d in rroots[1:]:
+        si, sd = "/".join(inst), "/".join(d)
+        if d == inst:
+            out.add("identical")
+        elif d[: len(inst)] == inst:
+            out.add("below-install")
+        elif inst[: len(d)] == d:
+            out.add("above-install")
+        elif sd.startswith(si):
+            out.add("string-prefix-sibling")
+        elif d[:-1] == inst[:-1]:
+            out.add("sibling")
+        else:
+            out.add("elsewhere")
+    for i, a in enumerate(rroots[1:]):
+        for b in rroots[i + 2:]:
+            if a != b and ("/".join(b).startswith("/".join(a)) or "/".join(a).startswith("/".join(b))) and a[: len(b)] != b and b[: len(a)] != a:
+                out.add("data-string-prefix-pair")
+    return sorted(out) or ["no-data-paths"]
 
 
 def check_cleanup_oracle(ctx, preserve, sb, before, after, roots):
@@ -759,7 +833,10 @@ def check_cleanup_oracle(ctx, preserve, sb, before, after, roots):
 # ------------------------------------------------------------------------------------------------
 # stream: cleanup on arbitrary directory contents
 # ------------------------------------------------------------------------------------------------
-NAMES = ["a", "b", "c", "data", "install"]
+# names that extend each other as strings (x, x-data, x_data, x1, x.bak) without being ancestors of each other
+NAMES = ["a", "a-data", "a_data", "a1", "b", "c", "data", "data2", "install", "install-1.2", "install-1.2.3", "install.bak"]
+SUFFIXES = ["-data", "_data", "1", "0", ".bak", "-1.2.30", " 2"]
+SPELLINGS = ["abs", "abs", "abs", "slash", "rel", "dot", "dslash"]
 
 
 def gen_cleanup(ctx):
@@ -770,8 +847,38 @@ def gen_cleanup(ctx):
             depth = rng.randrange(1, 5)
             entries.append({"path": [rng.choice(NAMES) for _ in range(depth)], "kind": rng.choice(["dir", "dir", "dir", "file", "file", "link"])})
         pick = lambda: [rng.choice(NAMES) for _ in range(rng.randrange(1, 4))]
-        yield {"entries": entries, "install": pick(), "data_paths": [pick() for _ in range(rng.randrange(0, 4))], "preserve": rng.random() < 0.2,
-               "allow_nondir_roots": rng.random() < 0.3}
+        install = pick()
+
+        def related():
+            """a data path in a chosen relation to the installation directory (or to an earlier data path)"""
+            base = install if (not dps or rng.random() < 0.7) else rng.choice(dps)
+            r = rng.randrange(8)
+            if r == 0:
+                return list(base)  # identical
+            if r == 1:
+                return base + [rng.choice(NAMES)]  # below
+            if r == 2:
+                return base + [rng.choice(NAMES), rng.choice(NAMES)]
+            if r == 3 and len(base) > 1:
+                return base[:-1]  # above
+            if r in (4, 5):
+                return base[:-1] + [base[-1] + rng.choice(SUFFIXES)]  # sibling whose spelling extends the base as a string
+            if r == 6:
+                return base[:-1] + [base[-1] + rng.choice(SUFFIXES), rng.choice(NAMES)]  # ... and below such a sibling
+            return base[:-1] + [rng.choice(NAMES)]  # plain sibling
+
+        dps = []
+        for _ in range(rng.randrange(0, 4)):
+            dps.append(related() if rng.random() < 0.6 else pick())
+        # make sure there is something to remove (and something to keep) at the roots
+        for r in [install] + dps:
+            if rng.random() < 0.75:
+                entries.append({"path": list(r), "kind": "dir"})
+                entries.append({"path": list(r) + [rng.choice(["segments_1", "nodes"])], "kind": rng.choice(["file", "dir"])})
+        same = rng.random() < 0.5
+        sp = rng.choice(SPELLINGS)
+        yield {"entries": entries, "install": install, "data_paths": dps, "preserve": rng.random() < 0.2, "allow_nondir_roots": rng.random() < 0.3,
+               "spellings": [sp if same else rng.choice(SPELLINGS) for _ in range(len(dps) + 1)]}
 
 
 def run_cleanup(ctx, case):
@@ -796,7 +903,32 @@ def run_cleanup(ctx, case):
                                           "listing": [[list(p), k] for p, k in sorted(before.items())]})
         install = os.path.join(root, *case["install"])
         dps = [os.path.join(root, *d) for d in case["data_paths"]]
-        provisioner.cleanup(case["preserve"], install, dps)
+        spellings = case.get("spellings") or ["abs"] * (len(dps) + 1)
+
+        def spell(comps, how):
+            # a trailing '/' would make the kernel resolve a symbolic link: only for roots that are not links
+            if before.get(tuple(comps)) == "link" and how == "slash":
+                how = "abs"
+            if how == "slash":
+                return os.path.join(root, *comps) + "/"
+            if how == "rel":
+                return os.path.join(*comps)
+            if how == "dot":
+                return os.path.join(root, *comps[:-1], ".", comps[-1])
+            if how == "dslash":
+                return root + "//" + "/".join(comps)
+            return os.path.join(root, *comps)
+
+        spelled = [spell(c, h) for c, h in zip([case["install"]] + case["data_paths"], spellings)]
+        cwd = os.getcwd()
+        os.chdir(root)
+        try:
+            provisioner.cleanup(case["preserve"], spelled[0], spelled[1:])
+        finally:
+            os.chdir(cwd)
+        for r in root_relation([tuple(case["install"])] + [tuple(d) for d in case["data_paths"]]):
+            ctx.count("roots:" + r)
+        ctx.count("spelling:" + ("same-" + spellings[0] if len(set(spellings)) == 1 else "mixed"))
         after = listing(root)
         mafter = dict((tuple(p), k) for p, k in m["r"])
         if mafter != after:
